@@ -142,8 +142,16 @@ func gen(f vh.Flags, r *vrand.R, emit func(In)) {
 			nids := r.Range(3, 6)
 			var ver int64
 			in := In{Mode: mode, NIDs: nids, Layout: sw.Layout{Config: "scorch-disk", Opts: r.Intn(5), Keep: r.Range(1, 5)}}
-			// spaced batches so that the retained rollback points really differ
-			s1 := Session{Actions: genActions(r, nids, r.Range(5, 12), &ver, []int{3000, 8000, 20000}, 5)}
+			// spaced batches so that the retained rollback points really differ ...
+			pauses := []int{3000, 8000, 20000}
+			if k%2 == 1 {
+				// ... or bursts of unsafe batches, so that snapshots are persisted through the
+				// in-memory-merge path while later batches keep arriving
+				in.Layout.Unsafe = true
+				in.Layout.Keep = r.Range(3, 8)
+				pauses = []int{0, 0, 0, 300, 2000}
+			}
+			s1 := Session{Actions: genActions(r, nids, r.Range(5, 12)+8*(k%2), &ver, pauses, 5)}
 			s1.Actions = append(s1.Actions, Action{Kind: "settle"})
 			s2 := Session{Actions: genActions(r, nids, r.Range(1, 4), &ver, []int{500}, 0)}
 			in.Sessions = []Session{s1, s2, {}}
